@@ -320,5 +320,6 @@ def main(chk):
     for i in (0, len(progs) // 2, len(progs) - 1):
         chk.sample({"prelude": PRELUDE, "program": progs[i], "expected": cases[i][1],
                     "impl": {k: res[i]["impl"].get(k) for k in ("kind", "errk", "errmsg", "out")}, "model_verdict": res[i]["verdict"]})
+    chk.cov["rule"] += " Added after seeded round 5: Either steps that are property calls (a raising method, an absent property, arguments of such a step)."
     return pancore.conclude(chk, ok, broken, "Props/C07.v", res, viol, model_only, "C07",
                             "Core.Interp vs evaluator/*.go on fault-injected programs")
